@@ -119,10 +119,11 @@ def corruptions(case):
       out.append(('functor-argument-not-a-dependency', with_stmt(i, Functor(s.new, s.base, s.bindings + (('Zzz9', 'A1'),))), 'invalid', ['Zzz9']))
       break
   # annotation of a missing predicate
-  for ann in ('@OrderBy(Nope9, "col0");', '@Limit(Nope9, 1);', '@NoInject(Nope9);', '@With(Nope9);', '@NoWith(Nope9);'):
+  for ann in ('@OrderBy(Nope9, "col0");', '@Limit(Nope9, 1);', '@NoInject(Nope9);', '@With(Nope9);', '@NoWith(Nope9);', '@Recursive(Nope9, 3);'):
     out.append(('annotation-of-missing-predicate', Program(stmts + [Ann(ann)], prog.engine, prog.type_checking), 'invalid', ['Nope9']))
     # ... and the same after a valid annotation of the same kind (the check must not stop at the first good subject)
     good = ann.replace('Nope9', case.preds[0])
+    if ann.startswith('@Recursive') and any(isinstance(st, Ann) and st.text.startswith('@Recursive') for st in stmts): continue     # a second @Recursive of one predicate is itself an error
     out.append(('annotation-of-missing-predicate', Program(stmts + [Ann(good), Ann(ann)], prog.engine, prog.type_checking), 'invalid', ['Nope9']))
   return out
 
